@@ -1413,3 +1413,98 @@ pub fn dup_case(seed: u64, idx: usize, nsteps: usize) -> Case {
     edits.extend(more);
     Case { id: format!("d{seed}-{idx}"), family: "dups".into(), std_mode: "std".into(), libs, files, edits, cursors: vec![] }
 }
+
+// ------------------------------------------------------------------------------------------------
+// cyclic type declarations: cycles through every type-forming construct + the queries that walk types
+// ------------------------------------------------------------------------------------------------
+/// (name of the cycle, declarations, type of the object)
+pub const CYCLES: &[(&str, &str, &str)] = &[
+    ("access-self", "  type a_t;\n  type a_t is access a_t;\n", "a_t"),
+    ("access-via-alias", "  type b_t;\n  alias b_al is b_t;\n  type b_t is access b_al;\n", "b_t"),
+    ("access-via-alias-of-alias", "  type c_t;\n  alias c_al is c_t;\n  alias c_al2 is c_al;\n  type c_t is access c_al2;\n", "c_t"),
+    ("alias-of-access-self", "  type c2_t;\n  type c2_t is access c2_t;\n  alias c2_al is c2_t;\n", "c2_al"),
+    ("access-via-subtype", "  type d_t;\n  subtype d_st is d_t;\n  type d_t is access d_st;\n", "d_t"),
+    ("subtype-of-access-self", "  type d2_t;\n  type d2_t is access d2_t;\n  subtype d2_st is d2_t;\n", "d2_st"),
+    ("record-linked-list", "  type e_t;\n  type e_acc is access e_t;\n  type e_t is record\n    nxt : e_acc;\n    el : integer;\n  end record;\n", "e_acc"),
+    ("record-of-itself", "  type f_t;\n  type f_t is record\n    el : f_t;\n    nxt : f_t;\n  end record;\n", "f_t"),
+    ("array-of-access", "  type g_t;\n  type g_acc is access g_t;\n  type g_t is array (0 to 1) of g_acc;\n", "g_acc"),
+    ("array-of-itself", "  type h_t;\n  type h_t is array (0 to 1) of h_t;\n", "h_t"),
+    ("mutual-access", "  type i_t;\n  type j_t;\n  type i_t is access j_t;\n  type j_t is access i_t;\n", "i_t"),
+    ("mutual-access-via-alias", "  type k_t;\n  type l_t;\n  alias k_al is k_t;\n  alias l_al is l_t;\n  type k_t is access l_al;\n  type l_t is access k_al;\n", "k_t"),
+    ("subtype-cycle", "  type n_t;\n  subtype n_st is n_t;\n  subtype n_t is n_st;\n", "n_st"),
+    ("subtype-of-itself", "  subtype o_st is o_st;\n", "o_st"),
+    ("alias-of-itself", "  alias o_al is o_al;\n", "o_al"),
+    ("protected-self", "  type p_t is protected\n    procedure m(variable o : inout p_t);\n    impure function g return p_t;\n    impure function el return integer;\n  end protected;\n", "p_t"),
+    ("access-to-protected-self", "  type q_t;\n  type q_acc is access q_t;\n  type q_t is protected\n    impure function nxt return q_acc;\n    procedure m;\n  end protected;\n", "q_acc"),
+    ("record-tree", "  type r_t;\n  type r_acc is access r_t;\n  type r_arr is array (natural range <>) of r_acc;\n  type r_arr_acc is access r_arr;\n  type r_t is record\n    kids : r_arr_acc;\n    nxt : r_acc;\n    el : integer;\n  end record;\n", "r_acc"),
+    ("file-of-itself", "  type s_t;\n  type s_t is file of s_t;\n", "s_t"),
+    ("never-completed", "  type u_t;\n  type u_acc is access u_t;\n", "u_acc"),
+    ("access-to-access-via-alias", "  type v_t;\n  type v_acc is access v_t;\n  alias v_al is v_acc;\n  type v_t is access v_al;\n", "v_t"),
+    ("record-element-alias-cycle", "  type w_t;\n  alias w_al is w_t;\n  type w_acc is access w_al;\n  type w_t is record\n    nxt : w_acc;\n    el : w_al;\n  end record;\n", "w_acc"),
+    ("range-of-itself", "  type x_t is range 0 to x_t'high;\n", "x_t"),
+    ("enum-alias-literal", "  type y_t is (y_a, y_b);\n  alias y_a is y_b [return y_t];\n", "y_t"),
+    ("constant-of-itself", "  type z_t is array (0 to z_c'length) of bit;\n  constant z_c : z_t := (others => '0');\n", "z_t"),
+];
+
+/// statements that make the analysis / the queries walk the type of the object `@`
+pub const CYCLE_USES: &[&str] = &[
+    "    @.", "    @.all.", "    @.all.all.", "    @.all.all.all.all.all.all.", "    vo := @.all;", "    @ := null;", "    @.all := @.all;", "    @.all.all := @;",
+    "    vi := @'length;", "    vi := @.all'length;", "    @(0).", "    @(0) := @(0);", "    @.all(0).all(0).", "    @.el.", "    @.el := 1;", "    @.nxt.nxt.nxt.",
+    "    @.nxt.all.nxt.all.el := 1;", "    @.kids.all(0).all.kids.", "    if @ = null then null; end if;", "    if @.all = @.all.all then null; end if;", "    @.all'",
+    "    @'", "    deallocate(@);", "    @ := new ", "    @ := new @;", "    @ := new vo_t'(@.all);", "    @.m;", "    @.m.", "    @.g.g.g.", "    @.m(@);", "    vi := @.el;",
+    "    vi := @.nxt.el;", "    report @'image;", "    vo := @;", "    vi := @;", "    for k in @'range loop null; end loop;", "    case @ is when others => null; end case;",
+    "    vi := @.all.all'length + @'length;", "    wait on @;", "    @ <= @;",
+];
+
+fn cycle_file(decls: &str, objs: &[(String, String)], stmt: &str) -> (String, usize) {
+    let mut t = String::from("package cyc_pkg is\n");
+    t.push_str(decls);
+    t.push_str("end package cyc_pkg;\n\npackage body cyc_pkg is\nend package body;\n\nuse work.cyc_pkg.all;\n\nentity cyc_ent is\nend entity;\n\narchitecture ca of cyc_ent is\n");
+    for (o, ty) in objs {
+        t.push_str(&format!("  shared variable s{o} : {ty};\n  signal g{o} : {ty};\n"));
+    }
+    t.push_str("begin\n  cp : process\n    variable vi : integer;\n");
+    for (o, ty) in objs {
+        t.push_str(&format!("    variable {o} : {ty};\n    variable {o}_2 : {ty};\n"));
+    }
+    t.push_str("  begin\n");
+    let line = t.matches('\n').count();
+    t.push_str(stmt);
+    t.push_str("\n    wait;\n  end process cp;\nend architecture ca;\n");
+    (t, line)
+}
+
+/// One case per cycle: the declarations of that cycle alone, an object of the type, every use in turn.
+/// `with_all` adds one case with ALL cycles declared together, per use every object in turn.
+pub fn cycle_cases(seed: u64) -> Vec<Case> {
+    let mut out = vec![];
+    let mk = |id: String, decls: &str, objs: Vec<(String, String)>, stmts: Vec<String>| -> Case {
+        let (text, line) = cycle_file(decls, &objs, "    null;");
+        let mut cur = "    null;".to_string();
+        let mut edits = vec![];
+        for s in stmts {
+            edits.push(Edit { file: "cyc.vhd".into(), range: Some([line as u32, 0, line as u32, cur.encode_utf16().count() as u32]), text: s.clone(), kind: "type-cycle-use".into() });
+            cur = s;
+        }
+        Case { id, family: "cycles".into(), std_mode: "std".into(), libs: vec![("lib".to_string(), vec!["cyc.vhd".into()])], files: vec![("cyc.vhd".to_string(), text)], edits, cursors: vec![] }
+    };
+    for (name, decls, ty) in CYCLES.iter() {
+        let objs = vec![("vo".to_string(), ty.to_string())];
+        let stmts: Vec<String> = CYCLE_USES.iter().map(|u| u.replace("vo_t", ty).replace('@', "vo")).collect();
+        out.push(mk(format!("cy{seed}-{name}"), decls, objs, stmts));
+        // the same through the shared variable / signal of that type
+        let stmts2: Vec<String> = CYCLE_USES.iter().enumerate().map(|(k, u)| u.replace("vo_t", ty).replace('@', if k % 2 == 0 { "svo" } else { "gvo" })).collect();
+        out.push(mk(format!("cy{seed}-{name}-shared"), decls, vec![("vo".to_string(), ty.to_string())], stmts2));
+    }
+    // all cycles in one package
+    let all_decls: String = CYCLES.iter().map(|c| c.1).collect();
+    let objs: Vec<(String, String)> = CYCLES.iter().enumerate().map(|(i, c)| (format!("vo{i}"), c.2.to_string())).collect();
+    for (k, u) in CYCLE_USES.iter().enumerate() {
+        if (k as u64 + seed) % 4 != 0 {
+            continue;
+        }
+        let stmts: Vec<String> = objs.iter().map(|(o, ty)| u.replace("vo_t", ty).replace('@', o)).collect();
+        out.push(mk(format!("cy{seed}-all-{k}"), &all_decls, objs.clone(), stmts));
+    }
+    out
+}
